@@ -65,7 +65,7 @@ structure FaultSpec where
 def parseFaults (s : String) : Option FaultSpec :=
   if s == "-" then some {} else
   (s.splitOn ",").foldlM (init := ({} : FaultSpec)) fun acc tok =>
-    if tok == "s" then some { acc with f := { acc.f with storeFail := true } }
+    if tok == "s" || tok == "b" || tok == "c" then some { acc with f := { acc.f with storeFail := true } }
     else if tok == "S" then some { acc with f := { acc.f with storeFail := true, storeLanded := true } }
     else if tok.startsWith "f" then
       (tok.drop 1).toString.toNat?.map (fun i => { acc with f := { acc.f with fetchFail := i :: acc.f.fetchFail } })
